@@ -1,4 +1,5 @@
 import RreModel.C14.Sound
+import RreModel.C14.Lives
 /-
 C14 — property theorems (only). "For an inner time-window join, the pairs emitted over a run are
 exactly the (left, right) pairs with equal join keys, timestamps no further apart than the window
@@ -333,6 +334,42 @@ theorem multiObsTraceC_no_ctl (js : List JoinDef) (ms : List JOp) :
   rw [← this]
   rfl
 
+/-- **`StreamJoinManager` with joins unregistered and registered again.** For every list of joins
+and every history of `process_event` / `update_watermark` / `unregister_join(j<i>)` /
+`register_join(j<i>, fresh node)` calls — control calls in any number and any order, for any join
+ids (alternation per id, `ctlValid`, is what makes the *model* faithful to the code, it is not
+needed for this statement) —: during each call every join's handler receives exactly one
+(possibly empty) batch, and each join's column meets the specification **life by life**
+(`multiOkC` / `livesOk`, the predicate the driver evaluates on the implementation's observations):
+every life — the calls between one registration of the join and its next unregistration — is a run
+of a *fresh* join and satisfies the single-join manager specification `mgrOkG` against the
+reference join of what arrived **during that life** (within the reference, no pair twice, complete
+while no partner was evicted, every call returns what it owes, silent on streams it does not
+consume); while a join is away, and during every control call, its handler receives nothing; the
+control calls of one join are not noticed by the others.
+Hypothesis (`WFC`): within every life of every join, event ids are unique within each stream the
+join consumes. -/
+theorem multi_manager_ctl_meets_spec (js : List JoinDef) (cs : List COp) (hwf : WFC 0 js cs) :
+    multiOkC 0 js cs (multiObsTraceC js cs) = true :=
+  multiOkC_multiTraceC (fun out => out.map idPair) rfl
+    (fun j ms h => routed_meets_spec (routeJ j.l j.r) j.P ms h) 0 js cs hwf
+
+/-- the same under the input check the driver applies to every case (`bad-case-ids`): event ids
+unique, per consumed stream, over the **whole** history -/
+theorem multi_manager_ctl_meets_spec_unique_ids (js : List JoinDef) (cs : List COp)
+    (hwf : ∀ j ∈ js, WF (joinOps j (opsOf cs))) :
+    multiOkC 0 js cs (multiObsTraceC js cs) = true :=
+  multi_manager_ctl_meets_spec js cs (wfc_of_unique_ids 0 js cs hwf)
+
+/-- the columns of the loop with control calls are independent: the first registered join's
+batches are its own life-by-life trace, whatever else is registered and whichever other joins come
+and go -/
+theorem multi_ctl_first_column (j : JoinDef) (js : List JoinDef) (cs : List COp) :
+    heads (multiObsTraceC (j :: js) cs) =
+      some ((colTraceC 0 j (some init) cs).map (fun out => out.map idPair)) := by
+  unfold multiObsTraceC
+  simp only [idxFrom, List.map_cons, heads_multiTraceC]
+
 def exLiveJoins : List JoinDef := [{ l := 0, r := 1, P := { W := 5, cond := fun _ _ => true } }]
 def exLiveOps : List COp :=
   [.op (.ev 0 ⟨0, 1, some 0, 0⟩), .op (.ev 1 ⟨0, 1, some 0, 0⟩), .unreg 0, .op (.ev 1 ⟨1, 1, some 0, 0⟩), .reg 0,
@@ -341,6 +378,21 @@ example : multiObsTraceC exLiveJoins exLiveOps = [[[]], [[(0, 0)]], [[]], [[]], 
 example : multiOkC 0 exLiveJoins exLiveOps (multiObsTraceC exLiveJoins exLiveOps) = true := by decide
 -- the pair delivered twice after registering again (stale routing entry) is rejected
 example : multiOkC 0 exLiveJoins exLiveOps [[[]], [[(0, 0)]], [[]], [[]], [[]], [[]], [[(1, 2), (1, 2)]]] = false := by decide
+example : WFC 0 exLiveJoins exLiveOps := by decide
+example : livesOf 0 true [] exLiveOps =
+    [[.ev 0 ⟨0, 1, some 0, 0⟩, .ev 1 ⟨0, 1, some 0, 0⟩], [.ev 0 ⟨1, 2, some 0, 0⟩, .ev 1 ⟨2, 2, some 0, 0⟩]] := by decide
+/-- ids need only be unique within a life: here right id 0 is used in both lives of join 0 (the
+whole history is not `WF`), join 1 — sharing stream 1 — keeps running meanwhile and does not
+notice, and a second join comes and goes as well -/
+def exLiveJoins2 : List JoinDef :=
+  [{ l := 0, r := 1, P := { W := 5, cond := fun _ _ => true } }, { l := 1, r := 0, P := { W := 5, cond := fun _ _ => true } }]
+def exLiveOps2 : List COp :=
+  [.op (.ev 0 ⟨0, 1, some 0, 0⟩), .op (.ev 1 ⟨0, 1, some 0, 0⟩), .unreg 0, .op (.ev 1 ⟨1, 1, some 0, 0⟩), .reg 0,
+   .unreg 1, .op (.ev 0 ⟨1, 2, some 0, 0⟩), .op (.ev 1 ⟨0, 2, some 0, 0⟩), .reg 1, .op (.ev 0 ⟨2, 3, some 0, 0⟩)]
+example : WFC 0 exLiveJoins2 exLiveOps2 ∧ ¬ (∀ j ∈ exLiveJoins2, WF (joinOps j (opsOf exLiveOps2))) := by decide
+example : multiObsTraceC exLiveJoins2 exLiveOps2 =
+    [[[], []], [[(0, 0)], [(0, 0)]], [[], []], [[], [(1, 0)]], [[], []], [[], []], [[], []], [[(1, 0)], []],
+     [[], []], [[(2, 0)], []]] := by decide
 -- a join that is away must stay silent
 example : multiOkC 0 exLiveJoins exLiveOps [[[]], [[(0, 0)]], [[]], [[(0, 1)]], [[]], [[]], [[(1, 2)]]] = false := by decide
 
